@@ -155,6 +155,15 @@ func (p *Pool) Put(x any) {
 	p.push(x)
 }
 
+// Items returns the pooled items, oldest first (white-box, sequential driver only).
+func (p *Pool) Items() []any {
+	out := make([]any, 0, p.n)
+	for i := 0; i < p.n; i++ {
+		out = append(out, p.slots[i].item)
+	}
+	return out
+}
+
 //go:norace
 func (p *Pool) pop() (any, bool) {
 	if p.n == 0 {
